@@ -42,6 +42,10 @@ THEOREMS = [
     "C13_load_orphans_witness",
     "C13_construct_all_or_nothing",
     "C13_construct_log_order_witness",
+    "C13_copy_wf",
+    "C13_setstate_raw_witness",
+    "C13_running_guard",
+    "C13_running_pop_first_witness",
 ]
 RULE = (
     "seeded random histories (4-28 ops) over 2-5 composites (strict/non-strict workflows, macros, a macro "
@@ -87,7 +91,8 @@ TRIGGER = {"new": "construct", "add": "add_child", "setattr": "add_child", "seti
            "setparent": "parent-assign", "remove": "remove_child", "removelbl": "remove_child",
            "replace": "replace_child", "replacelbl": "replace_child", "setstart": "set-starting", "raw": "raw",
            "newfail": "construct", "newwith": "construct", "replacecls": "replace_child",
-           "reload": "load-in-place", "pickle": "pickle-roundtrip", "connect": "connect"}
+           "reload": "load-in-place", "pickle": "pickle-roundtrip", "connect": "connect",
+           "deepcopy": "pickle-roundtrip", "copy": "copy", "setrunning": "set-running"}
 
 
 # ----------------------------------------------------------------------------- generation
@@ -234,10 +239,26 @@ def _random_case(rng, tier):
                     ops.append(["replacecls", p, lab.get(old, "a"), new])
                     born(new, lab.get(old, "a"), p)
                     own[old] = None
-            elif q < 0.9:
+            elif q < 0.84:
                 ops.append(["reload", rng.choice(alive)])
+            elif q < 0.9:
+                ops.append([rng.choice(["pickle", "deepcopy"]), rng.choice(alive)])
+            elif q < 0.95:
+                ops.append(["setrunning", rng.choice(alive), rng.random() < 0.7])
             else:
-                ops.append(["pickle", rng.choice(alive)])
+                c = rng.choice(cs)
+                twins = [i for i in unborn if world[i]["kind"] == world[c]["kind"] and world[i]["strict"] == world[c]["strict"]]
+                if twins:
+                    new = rng.choice(twins)
+                    ops.append(["copy", c, new])
+                    born(new, lab.get(c, "w"), None)
+                    if world[new]["kind"] in ("macro", "macroA"):
+                        u = _inner_of(world, new)  # the copy holds the original's children, its own slot stays empty
+                        alive.remove(u)
+                        own.pop(u, None)
+                    for i in alive:
+                        if own.get(i) == c:
+                            own[i] = new
         elif r < 0.88:
             p = rng.choice(cs)
             kids = [i for i in alive if own.get(i) == p]
@@ -344,6 +365,14 @@ def _ex_alphabet2():
     al.append(["add", 0, 1, None, None])
     al.append(["setparent", 3, 1])
     al.append(["remove", 0, 3])
+    # node states and state-carrying operations: a running child is removed / moved / replaced / re-labelled; a
+    # composite is copied (5 is the unborn twin of workflow 0)
+    al.append(["setrunning", 3, True])
+    al.append(["copy", 0, 5])
+    al.append(["deepcopy", 0])
+    al.append(["replace", 0, 3, 4])
+    al.append(["add", 0, 3, "c", None])
+    al.append(["setparent", 3, None])
     return al
 
 
@@ -426,6 +455,13 @@ def _scenarios(rng, tier):
         yield {"scenario": "for-rerun", "lens": [rng.randint(1, 4) for _ in range(rng.randint(2, 4))]}
     for how in ("node", "label", "parent-none", "reparent", "replace"):
         yield {"scenario": "remove-running", "how": how}
+    for how in ("node", "label", "parent-none", "reparent", "replace", "relabel", "replace-by-class"):
+        for starting in (False, True):
+            yield {"scenario": "pending-future", "how": how, "starting": starting}
+    for nested in (False, True):
+        yield {"scenario": "by-reference", "nested": nested}
+        for deep in (False, True):
+            yield {"scenario": "copy", "nested": nested, "deep": deep}
 
 
 def corpus():
@@ -730,11 +766,14 @@ def _graph_scan(roots, tracked):
     from pyiron_workflow.workflow import Workflow
 
     bad, todo, seen = [], list(roots), set()
+    listed_by: dict = {}
     while todo:
         o = todo.pop()
         if id(o) in seen or not isinstance(o, Composite):
             continue
         seen.add(id(o))
+        for k, v in o.children.items():
+            listed_by.setdefault(id(v), []).append(f"{o.label}@{len(seen)}[{k}]")
         keys = list(o.children.keys())
         if len(set(keys)) != len(keys):
             bad.append(("sibling-labels", f"{o.label}: {keys}"))
@@ -751,6 +790,9 @@ def _graph_scan(roots, tracked):
         for st in o.starting_nodes:
             if not any(st is v for v in o.children.values()):
                 bad.append(("starting", f"starting node {st.label!r} of {o.label} is not one of its children"))
+    for _v, where in listed_by.items():
+        if len(where) > 1:
+            bad.append(("one-parent", f"one node is listed by {len(where)} composites: {where}"))
     for x in tracked:
         par = x.parent
         if par is not None and not any(x is v and k == x.label for k, v in par.children.items()):
@@ -796,12 +838,15 @@ def _run_scenario(case):
                 host.m.add_child(cls["leaf"](label=f"x{i}"))
             tracked.extend(everything(wf))
             stage("built", [wf])
+            spent = []
             if case.get("real"):
-                from concurrent.futures import ProcessPoolExecutor
-
-                with ProcessPoolExecutor(max_workers=1) as ex:
+                with nodes_c13.Recording(max_workers=1) as ex:
                     host.m.executor = ex
                     wf()
+                    for f in ex.handed_out:
+                        r = f.result(timeout=60)
+                        if isinstance(r, Composite):
+                            spent.append(r)  # the copy that came back: still reachable through the future
                 host.m.executor = None
             else:
                 other = pickle.loads(pickle.dumps(host.m))
@@ -810,8 +855,11 @@ def _run_scenario(case):
                     return {"obs": [], "states": [], "scenario": [], "changed": 3, "stats": {},
                             "variant": _variant(), "reserved": _reserved()}
                 merge(host.m, other)
+                spent.append(other)
             tracked.extend(everything(wf))
-            stage("merged", [wf])
+            for sp in spent:
+                tracked.extend(everything(sp))
+            stage("merged", [wf] + spent)
         elif name == "for-rerun":
             from pyiron_workflow.nodes.for_loop import for_node
             from pyiron_workflow.nodes.standard import Add
@@ -844,6 +892,80 @@ def _run_scenario(case):
                 wf.replace_child(a, b)
             a.running = False
             stage(how, [wf, w2])
+        elif name == "by-reference":
+            from concurrent.futures import ThreadPoolExecutor
+
+            wf = cls["wf"]("w", autoload=None)
+            host = wf
+            if case.get("nested"):
+                wf.outer = nodes_c13.MA()
+                host = wf.outer
+            host.m = nodes_c13.M()
+            tracked.extend(everything(wf))
+            with ThreadPoolExecutor(max_workers=1) as ex:
+                host.m.executor = ex
+                wf()
+            host.m.executor = None
+            tracked.extend(everything(wf))
+            stage("returned", [wf])
+        elif name == "copy":
+            import copy
+
+            wf = cls["wf"]("w", autoload=None)
+            wf.m = nodes_c13.M()
+            wf.m.add_child(cls["leaf"](label="x"))
+            wf.a = cls["leaf"](label="a")
+            wf.starting_nodes = [wf.a]
+            src = wf.m if case.get("nested") else wf
+            tracked.extend(everything(wf))
+            cp = (copy.deepcopy if case.get("deep") else copy.copy)(src)
+            tracked.extend(everything(cp))
+            stage("copied", [wf, cp])
+        elif name == "pending-future":
+            wf, w2 = cls["wf"]("w", autoload=None), cls["wf"]("w2", autoload=None)
+            a = cls["leaf"](5, label="a", parent=wf)
+            b = cls["leaf"](6, label="b")
+            if case.get("starting"):
+                wf.starting_nodes = [a]
+            ex = nodes_c13.Manual()
+            a.executor = ex
+            a.run()
+            tracked.extend([wf, w2, a, b])
+
+            def facts():
+                return [(c.label, [(k, v.label, v.parent is c) for k, v in c.children.items()],
+                         sorted(s.label for s in c.starting_nodes)) for c in (wf, w2)] + [
+                            (x.label, getattr(x.parent, "label", None)) for x in (a, b)]
+
+            before = facts()
+            how, raised = case["how"], None
+            try:
+                if how == "node":
+                    wf.remove_child(a)
+                elif how == "label":
+                    wf.remove_child("a")
+                elif how == "parent-none":
+                    a.parent = None
+                elif how == "reparent":
+                    a.parent = w2
+                elif how == "relabel":
+                    wf.add_child(a, label="c")
+                elif how == "replace":
+                    wf.replace_child(a, b)
+                else:
+                    wf.a = type(a)
+            except Exception as e:  # noqa: BLE001
+                raised = type(e).__name__
+            stages.append({"stage": f"{how}:pending", "bad": _graph_scan([wf, w2], tracked)
+                           + ([["rejected-changed", f"{how} of a child with a pending future raised {raised} but "
+                                                    f"changed {before} into {facts()}"]]
+                              if raised and facts() != before else [])})
+            try:
+                ex.finish()
+            except Exception:  # noqa: BLE001
+                pass
+            a.executor = None
+            stage(f"{how}:done", [wf, w2])
     except Exception as e:  # noqa: BLE001
         stages.append({"stage": "raised", "bad": [], "raised": type(e).__name__})
     return {"obs": [], "states": [], "scenario": stages, "changed": 3,
@@ -1022,15 +1144,32 @@ def run_impl(case):
                     for path, z in _walk_paths(o):
                         if path in paths:
                             objs[paths[path]] = z
-            elif kind == "pickle":
+            elif kind in ("pickle", "deepcopy"):
                 c = op[1]
                 if c not in objs:
                     res = "skip"
                 else:
+                    import copy
                     import pickle
 
-                    cp = pickle.loads(pickle.dumps(objs[c]))
+                    cp = pickle.loads(pickle.dumps(objs[c])) if kind == "pickle" else copy.deepcopy(objs[c])
                     extra = {"observe": "pickle", "orig": _subtree(objs[c]), "copy": _subtree(cp)}
+            elif kind == "copy":
+                c, new = op[1], op[2]
+                same = lambda a, b: world[a]["kind"] == world[b]["kind"] and world[a]["strict"] == world[b]["strict"]  # noqa: E731
+                if not comp(c) or new in objs or not (0 <= new < len(world)) or not same(c, new):
+                    res = "skip"
+                else:
+                    import copy
+
+                    objs[new] = copy.copy(objs[c])
+            elif kind == "setrunning":
+                c, flag = op[1], op[2]
+                if c not in objs:
+                    res = "skip"
+                else:
+                    extra = {"observe": "connect"}
+                    objs[c].running = bool(flag)
             elif kind == "connect":
                 a, b = op[1], op[2]
                 leafy = lambda i: i in objs and world[i]["kind"] in ("leaf", "inner")  # noqa: E731
@@ -1054,7 +1193,7 @@ def run_impl(case):
             if setup_stage and res == "ValueError":
                 res = "SetupError"
         snap = _snapshot(objs, world)
-        if kind in ("reload", "pickle", "connect") and res not in ("ok", "skip") and snap == prev:
+        if kind in ("reload", "pickle", "deepcopy", "connect") and res not in ("ok", "skip") and snap == prev:
             # storage refused (e.g. a non-child that the user put among the starting nodes cannot be saved): not an
             # ownership operation at all
             res = "skip"
@@ -1134,7 +1273,7 @@ def model_input(case, impl=None):
         if st is not None and st["res"] == "skip":
             continue
         observe = (st or {}).get("extra", {}).get("observe") if st else None
-        if observe in ("pickle", "connect") or (st is None and op[0] in ("pickle", "connect")):
+        if observe in ("pickle", "connect") or (st is None and op[0] in ("pickle", "deepcopy", "connect", "setrunning")):
             continue
         if resync:
             for i, l, p, _ok in st["snap"]["nodes"]:
@@ -1182,6 +1321,8 @@ def model_input(case, impl=None):
             lines.append(f"replacecls {op[1]} {_lbl(op[2])} {op[3]}")
         elif k == "reload":
             lines.append(f"reload {op[1]}")
+        elif k == "copy":
+            lines.append(f"copy {op[1]} {op[2]}")
     return lines
 
 
@@ -1337,7 +1478,7 @@ def oracle(case, r):
     if "scenario" in case:
         for st in r.get("scenario", []):
             trig = "scenario:" + case["scenario"]
-            if st.get("raised") and case["scenario"] != "remove-running":
+            if st.get("raised") and case["scenario"] not in ("remove-running", "pending-future"):
                 return [_fail("scenario-raised", 0, case, st["raised"], {"trigger": trig})]
             if st["bad"]:
                 clause, detail = st["bad"][0]
